@@ -12,6 +12,10 @@ enum CutOut {
 
 /// model: the unique interval containing v
 fn cut_model(vals: &[X], edges: &[f64], n_labels: usize, right: bool, add_bounds: bool) -> CutOut {
+    cut_model_nl(vals, edges, n_labels, right, add_bounds, None)
+}
+/// `null_at`: the label of that bin is itself a null (a bin may be labelled "no label": blanked-out tails)
+fn cut_model_nl(vals: &[X], edges: &[f64], n_labels: usize, right: bool, add_bounds: bool, null_at: Option<usize>) -> CutOut {
     let mut e: Vec<f64> = edges.to_vec();
     if add_bounds {
         if n_labels != edges.len() + 1 {
@@ -38,6 +42,7 @@ fn cut_model(vals: &[X], edges: &[f64], n_labels: usize, right: bool, add_bounds
                         })
                         .collect();
                     match hits.as_slice() {
+                        [j] if Some(*j) == null_at => Ok(None),
                         [j] => Ok(Some(100.0 + *j as f64)),
                         _ => Err(()),
                     }
@@ -56,18 +61,34 @@ mod imp {
     use tevec::prelude::*;
 
     pub fn run_cut_f64(vals: &[X], edges: &[f64], n_labels: usize, right: bool, add_bounds: bool) -> Outcome<CutOut> {
+        run_cut_f64_nl(vals, edges, n_labels, right, add_bounds, None)
+    }
+    pub fn run_cut_f64_nl(vals: &[X], edges: &[f64], n_labels: usize, right: bool, add_bounds: bool, null_at: Option<usize>) -> Outcome<CutOut> {
         let v: Vec<f64> = enc_vec(vals);
         let bins: Vec<f64> = edges.to_vec();
-        let labels: Vec<f64> = (0..n_labels).map(|j| 100.0 + j as f64).collect();
+        let labels: Vec<f64> = (0..n_labels).map(|j| if Some(j) == null_at { f64::NAN } else { 100.0 + j as f64 }).collect();
         catch(|| match v.titer().vcut(&bins, &labels, right, add_bounds) {
             Err(_) => CutOut::CallErr,
             Ok(it) => CutOut::Elems(it.map(|r: TResult<f64>| r.map(|l| if l.is_nan() { None } else { Some(l) }).map_err(|_| ())).collect()),
         })
     }
     pub fn run_cut_i32(vals: &[X], edges: &[f64], n_labels: usize, right: bool, add_bounds: bool) -> Outcome<CutOut> {
+        run_cut_i32_nl(vals, edges, n_labels, right, add_bounds, None)
+    }
+    /// f64 values, string labels ("None" is the null string)
+    pub fn run_cut_str_nl(vals: &[X], edges: &[f64], n_labels: usize, right: bool, add_bounds: bool, null_at: Option<usize>) -> Outcome<CutOut> {
+        let v: Vec<f64> = enc_vec(vals);
+        let bins: Vec<f64> = edges.to_vec();
+        let labels: Vec<String> = (0..n_labels).map(|j| if Some(j) == null_at { "None".to_string() } else { format!("{}", 100 + j) }).collect();
+        catch(|| match v.titer().vcut(&bins, &labels, right, add_bounds) {
+            Err(_) => CutOut::CallErr,
+            Ok(it) => CutOut::Elems(it.map(|r: TResult<String>| r.map(|l| l.parse::<f64>().ok()).map_err(|_| ())).collect()),
+        })
+    }
+    pub fn run_cut_i32_nl(vals: &[X], edges: &[f64], n_labels: usize, right: bool, add_bounds: bool, null_at: Option<usize>) -> Outcome<CutOut> {
         let v: Vec<Option<i32>> = enc_vec(vals);
         let bins: Vec<Option<i32>> = edges.iter().map(|e| Some(*e as i32)).collect();
-        let labels: Vec<Option<i32>> = (0..n_labels).map(|j| Some(100 + j as i32)).collect();
+        let labels: Vec<Option<i32>> = (0..n_labels).map(|j| if Some(j) == null_at { None } else { Some(100 + j as i32) }).collect();
         catch(|| match v.titer().vcut(&bins, &labels, right, add_bounds) {
             Err(_) => CutOut::CallErr,
             Ok(it) => CutOut::Elems(it.map(|r: TResult<Option<i32>>| r.map(|l| l.map(|x| x as f64)).map_err(|_| ())).collect()),
@@ -143,6 +164,48 @@ fn check_cut(ctx: &mut Ctx) {
                             finding,
                             size: edges.len() * 10 + n_labels,
                             case: json!({"family": fam, "elem": ty, "values": json_word(&vals), "edges": edges, "labels": n_labels, "right": right, "add_bounds": add_bounds}),
+                            expected: format!("{want:?}"),
+                            got: format!("{got:?}"),
+                        });
+                    }
+                }
+            }
+        }
+    }
+}
+
+/// a bin's own label may be a null (NaN / None / "None"): a value in that bin gets that label - Ok(null) - not an error
+fn check_cut_null_labels(ctx: &mut Ctx) {
+    let fam = "cut-null-labels";
+    let pool = [-1.0, 0.0, 2.0, 5.0];
+    let vals: Vec<X> = vec![None, Some(-3.0), Some(-1.0), Some(0.0), Some(1.0), Some(2.0), Some(5.0), Some(7.0)];
+    for ty in ["f64", "Option<i32>", "f64->String"] {
+        for mask in 0u32..16 {
+            let edges: Vec<f64> = (0..4).filter(|i| mask >> i & 1 == 1).map(|i| pool[i]).collect();
+            for right in [true, false] {
+                for add_bounds in [true, false] {
+                    let n_labels = if add_bounds { edges.len() + 1 } else { edges.len().saturating_sub(1) };
+                    for null_at in 0..n_labels {
+                        ctx.states += 1;
+                        ctx.fam(fam).states += 1;
+                        ctx.transitions += vals.len() as u64;
+                        ctx.nontrivial(fam, hash_bytes(format!("{ty}{mask}{null_at}{right}{add_bounds}").as_bytes()));
+                        let want = cut_model_nl(&vals, &edges, n_labels, right, add_bounds, Some(null_at));
+                        let got = match ty {
+                            "f64" => run_cut_f64_nl(&vals, &edges, n_labels, right, add_bounds, Some(null_at)),
+                            "Option<i32>" => run_cut_i32_nl(&vals, &edges, n_labels, right, add_bounds, Some(null_at)),
+                            _ => run_cut_str_nl(&vals, &edges, n_labels, right, add_bounds, Some(null_at)),
+                        };
+                        ctx.eval(fam, hash_bytes(format!("{got:?}").as_bytes()));
+                        if matches!(&got, Outcome::Ok(g) if *g == want) {
+                            ctx.traces += 1;
+                            continue;
+                        }
+                        ctx.violation(Violation {
+                            entry: "vcut (null label)".into(),
+                            finding: None,
+                            size: edges.len() * 10 + null_at,
+                            case: json!({"family": fam, "elem": ty, "values": json_word(&vals), "edges": edges, "null_label_at": null_at, "right": right, "add_bounds": add_bounds}),
                             expected: format!("{want:?}"),
                             got: format!("{got:?}"),
                         });
@@ -395,6 +458,8 @@ fn main() {
         });
         if stored["case"]["family"] == "cut" {
             check_cut(&mut ctx);
+        } else if stored["case"]["family"] == "cut-null-labels" {
+            check_cut_null_labels(&mut ctx);
         } else if ["cut-many-edges", "unique-long-runs", "translation-bigint"].contains(&stored["case"]["family"].as_str().unwrap_or("")) {
             check_large(!run.quick(), &mut ctx);
         } else {
@@ -403,6 +468,7 @@ fn main() {
         std::process::exit(finish_replay(&run, &stored, ctx));
     }
     check_cut(&mut ctx);
+    check_cut_null_labels(&mut ctx);
     check_unique(max_len, &mut ctx);
     check_large(!run.quick(), &mut ctx);
     let meta = Meta {
